@@ -76,6 +76,13 @@ CHECKS["C14"] = dict(
     note="Trusted: Coq kernel incl. vm_compute; the fail-closed translator templates.py (mini-Jinja parser self-tested against jinja2, Python ast of the dataclass / executor wiring / backend executors; normal forms of _ib_fetch, _copy_template_file and the render loop compared textually); jinja2's insertion semantics (hand model, validated by the whole-package comparison on lines containing template syntax, quotes, backslashes, <>&, non-ASCII, newlines); the hand-written documented-place table; extraction and the OCaml driver. The correspondence and the oracle are tests bounded by the generator. Metadata values other than str / list of str are out of scope.",
     technique="Coq proof (generic lemmas over the template AST + computation over artefacts regenerated from source) + differential whole-package comparison + anchor-based oracle",
 )
+CHECKS["C02"] = dict(
+    category="proof",
+    text="Coq proves, for ALL programs of the C++-subset IR, all events, all member states and all event sequences, that the static checkers are sound for the execution semantics: well_scoped (every occurrence refers to a member, an enclosing block's declaration made earlier, or an enclosing loop variable) excludes every stuck-on-unbound-name outcome of run_event/run_job; unique_decls (NoDup of members, block declarations and loop variables) implies that at every program position no binding is shadowed (lookup returns the unique declaration); types_ok excludes push_back/clear on a non-vector and % with a floating operand; refutation witnesses by computation for use-outside-block, read-before-declaration, duplicate member, % on double. The for-all-queries part is SAMPLED (translation validation): the extracted checkers run on the program parsed, with a printed-back round trip, from what the current translator emits for generated queries (all feature classes, three backends); completeness of the file set, the 0o755 mode, residual template directives, the slot/file tie and booking lines are runtime facts that are tested; in the thorough tier g++ -fsyntax-only against a stand-in data model generated from the declared universe is the independent oracle of 'compilable' and validates the checkers (agreement counts in the evidence).",
+    design_ref="5.2",
+    note="Level: proof of checker soundness + translation validation of sampled queries (not a proof about the translator). Trusted: Coq kernel; Cpp/IR.v + Cpp/Exec.v as the meaning of the emitted subset; the fail-closed emitted-text parser (every program is re-printed by the extracted printer and compared with the emitted lines); extraction + OCaml driver; qgen generator bounds; g++ 12 and the generated stand-in headers (the real ATLAS/CMS headers are absent: 'as declared'). types_ok_sound assumes events respect the declared method types (ev_ok). The generic template-rendering theorem is C14's.",
+    technique="Coq proof (mutual induction over stmt/block/stmts with a static-scope/dynamic-frames invariant) + verified-checker translation validation + g++ oracle",
+)
 NOT_YET = {}
 
 def main():
